@@ -404,7 +404,7 @@ class Interp(object):
             self.set_attr(obj, t.attr, v, t)
         elif isinstance(t, ast.Subscript):
             obj = self.eval(t.value)
-            idx = self.eval(t.slice)
+            idx = self.eval_slice(t.slice) if isinstance(t.slice, ast.Slice) else self.eval(t.slice)
             self.models.store_subscript(self, obj, idx, v, t)
         else:
             raise AnalysisError('assignment target %s' % type(t).__name__)
